@@ -900,6 +900,20 @@ func runShard(opt Options, exe, work, tier string, seed int64, n int, tmo time.D
 				}
 				stageB = b
 			}
+			if sigl == "unknown-exit" {
+				// the child vanished without any Go fatal/panic/signal report (e.g. killed from
+				// outside, OOM killer): nothing attributable to the code under test
+				if s.res.Inconclusive == nil {
+					s.res.Inconclusive = map[string]int64{}
+				}
+				s.res.Inconclusive["child-died-without-report"]++
+				if stream == "" || s.restarts >= opt.MaxRestarts {
+					return
+				}
+				s.restarts++
+				s.resume = stream + "#" + strconv.Itoa(idx)
+				continue
+			}
 			s.crashed = append(s.crashed, violation{
 				Key:    "crash:" + stream + ":" + sigl,
 				What:   "process-fatal error in child while running the journalled case",
